@@ -5,6 +5,7 @@ import copy
 import itertools
 import pathlib
 import tempfile
+from concurrent.futures import ThreadPoolExecutor
 
 import numpy as np
 
@@ -206,13 +207,17 @@ def _validate(chk, recs, label):
 def run(chk):
     # ---- B1 -----------------------------------------------------------------------------
     dump = chk.scratch / "cards-states"
-    r = chk.tlc("CardsMC", "CardsMC.cfg", extra=("-dump", str(dump)), label="intended design, all shapes of depth <= 2")
+    with ThreadPoolExecutor(3) as pool:   # three independent TLC runs
+        f1 = pool.submit(chk.tlc, "CardsMC", "CardsMC.cfg", extra=("-dump", str(dump)), label="intended design, all shapes of depth <= 2")
+        f2 = pool.submit(chk.tlc, "CardsMC", "CardsMC_faithful.cfg", expect_violation=True,
+                         label="vacuity guard / faithful transcription of raw_field+load_field must be refuted")
+        f3 = pool.submit(chk.tlc, "CardsMC", "CardsMC_faithful_interp.cfg", expect_violation="InvInterp",
+                         label="vacuity guard / faithful commons.interpolator ignores the declared flag")
+        r = f1.result()
+        f2.result()
+        f3.result()
     if r.violated or not r.completed:
         raise MachineryError(f"Cards.tla intended design violates {r.violated}: {r.counterexample()[:2500]}")
-    chk.tlc("CardsMC", "CardsMC_faithful.cfg", expect_violation=True,
-            label="vacuity guard / faithful transcription of raw_field+load_field must be refuted")
-    chk.tlc("CardsMC", "CardsMC_faithful_interp.cfg", expect_violation="InvInterp",
-            label="vacuity guard / faithful commons.interpolator ignores the declared flag")
     states = dc.parse_dump(pathlib.Path(str(dump) + ".dump").read_text())
     if len(states) != r.distinct:
         raise MachineryError(f"dump has {len(states)} states, TLC reports {r.distinct}")
@@ -228,8 +233,26 @@ def run(chk):
     for k in (0, n_shape, n_shape + 3, n_shape + n_card):
         chk.sample({"instance": objs[k][0], "object": objs[k][1][:300], "observed": objs[k][2]})
 
-    # ---- B3 -------------------------------------------------------------------------------
-    bad, conf = _validate(chk, recs, "observed round trips and dispatchers")
+    # ---- B3 (corrupted copies of clean records ride along: binding demonstration) -----------
+    oks = [k for k in range(n_shape) if recs[k]["oc"] == "ok"]
+    if not oks:
+        raise MachineryError("no dict-like instance round-trips: nothing to corrupt")
+    good = next((k for k in oks if recs[k]["v"]["kids"][0]["k"] == "xgrid"), oks[0])
+    c1 = copy.deepcopy(recs[good])
+    c1.update(oc="differs", d1="xgrid-log-flag-lost")
+    c2 = copy.deepcopy(recs[good])   # same observation attached to a value no design round-trips this way
+    c2["v"]["kids"][0] = {"k": "npint32", "a": "i1", "kids": [], "n": []}
+    c3 = {"src": "interp", "declLog": True, "declDeg": 3, "dispLog": False, "dispDeg": 3, "from": "synthetic"}
+    c4 = {"src": "interp", "declLog": False, "declDeg": 2, "dispLog": False, "dispDeg": 3, "from": "synthetic"}
+    n = len(recs)
+    bad, conf = _validate(chk, recs + [c1, c2, c3, c4], "observed round trips and dispatchers")
+    chk.cov["traces_validated_against_impl"] -= 4
+    if bad.get(n) != "C40:xgrid-log-flag-lost" or n + 1 not in conf or bad.get(n + 2) != "C40:interpolator-ignores-is-log" \
+            or bad.get(n + 3) != "C40:interpolator-degree":
+        raise MachineryError(f"binding demonstration failed: corrupted records accepted ({[bad.get(n + j) for j in range(4)]}, {conf.get(n + 1)})")
+    chk.note("binding_demo", "4 corrupted records rejected by CardsTrace (2 outcomes, 2 dispatcher fields)")
+    bad = {k: v for k, v in bad.items() if k < n}
+    conf = {k: v for k, v in conf.items() if k < n}
     by_class = {}
     for k, verdict in sorted(bad.items()):
         by_class.setdefault(verdict, []).append(k)
@@ -254,24 +277,3 @@ def run(chk):
     chk.note("conformance", {"both designs": len(recs) - len(conf), **follows})
     if follows["neither"] > 0 and not chk.violations:
         chk.diag("the transcription in Cards.tla disagrees with the code on instances that satisfy the property")
-
-    # ---- binding demonstration --------------------------------------------------------------
-    oks = [k for k in range(n_shape) if recs[k]["oc"] == "ok"]
-    if not oks:
-        raise MachineryError("no dict-like instance round-trips: nothing to corrupt")
-    good = next((k for k in oks if recs[k]["v"]["kids"][0]["k"] == "xgrid"), oks[0])
-    c1 = copy.deepcopy(recs[good])
-    c1.update(oc="differs", d1="xgrid-log-flag-lost")
-    c2 = copy.deepcopy(recs[good])   # same observation attached to a value no design round-trips this way
-    c2["v"]["kids"][0] = {"k": "npint32", "a": "i1", "kids": [], "n": []}
-    gi = next((k for k in range(len(recs)) if recs[k]["src"] == "interp" and k not in bad), None)
-    base = recs[gi] if gi is not None else {"src": "interp", "declLog": True, "declDeg": 3, "dispLog": True, "dispDeg": 3, "from": "synthetic"}
-    c3 = copy.deepcopy(base)
-    c3["dispLog"] = not c3["dispLog"]
-    c4 = copy.deepcopy(base)
-    c4["dispDeg"] += 1
-    r = chk.tlc("CardsTrace", "CardsTrace.cfg", trace=[c1, c2, c3, c4], workers=1, label="corrupted records (must be rejected)")
-    rej = {t[1] for t in r.printed("BAD") if t[2].startswith("C40:")} | {t[1] for t in r.printed("CONF")}
-    if not {1, 2, 3, 4} <= rej:
-        raise MachineryError(f"binding demonstration failed: corrupted records accepted ({rej})")
-    chk.note("binding_demo", "4 corrupted records rejected by CardsTrace (2 outcomes, 2 dispatcher fields)")
